@@ -67,9 +67,20 @@ func limitsReleasingScenarios(tier string) []clustermc.Scenario {
 	el := func(q string) world.WL {
 		return world.WL{Queue: q, MinMember: 1, Pods: []world.PodSpec{{Shape: shG1, State: world.StRunning, Node: "n1"}, {Shape: shG1, State: world.StTerminating, Node: "n1"}}}
 	}
+	// a gang that fell below its minimum (one member terminating, no replacement yet) while the other
+	// member keeps running: not schedulable itself, but its running pod still occupies its queues
+	broken := func(q string, np bool) world.WL {
+		wl := world.WL{Queue: q, MinMember: 2, Pods: []world.PodSpec{{Shape: shG1, State: world.StRunning, Node: "n1"}, {Shape: shG1, State: world.StTerminating, Node: "n1"}}}
+		if np {
+			wl.PC = "p100"
+		}
+		return wl
+	}
 	menu := []wlItem{
 		{"run1+term1-elastic-qa", el("qa")},
 		{"run1+term1-elastic-qb", el("qb")},
+		{"run1+term1-brokengang2-qa", broken("qa", false)},
+		{"run1+term1-brokengang2-np-qb", broken("qb", true)},
 		{"pend-g1-qa", world.WL{Queue: "qa", Pods: pods(1, shG1, "", "")}},
 		{"pend-g1-np-qa", world.WL{Queue: "qa", PC: "p100", Pods: pods(1, shG1, "", "")}},
 		{"pend-g1-p75-qa", world.WL{Queue: "qa", PC: "p75", Pods: pods(1, shG1, "", "")}},
